@@ -343,5 +343,8 @@ func (r *R) Exec(ctx sdk.Context, line string) (sdk.Context, string) {
 	return ctx, out.Class + " " + r.state(ctx)
 }
 
+// GhostChance: one operation in ten is executed on a context that is thrown away (hx.Ghoster).
+func (r *R) GhostChance() (int, int) { return 1, 10 }
+
 // State renders the canonical module state (hx.Stater).
 func (r *R) State(ctx sdk.Context) string { return r.state(ctx) }
